@@ -14,7 +14,7 @@ StepRec ==
     IF now' # now THEN [p |-> "clock", from |-> "Tk", to |-> "Tk"] @@ base
     ELSE IF \E p \in ProcSet : Changed(p)
          THEN LET p == CHOOSE q \in ProcSet : Changed(q) IN [p |-> p, from |-> pc[p], to |-> pc'[p]] @@ base
-         ELSE [p |-> "loop", from |-> "Tick", to |-> "Tick"] @@ base
+         ELSE [p |-> "loop", from |-> pc["loop"], to |-> pc["loop"]] @@ base     \* Tick -> Tick (drain), Pop -> Pop (skip)
 
 GInit == Init /\ sched = <<>>
 \* Walks are generated for forcing: two things the harness cannot steer are left out of the walks (they stay in the
